@@ -290,7 +290,11 @@ func basePCall(L *LState) int {
 func basePrint(L *LState) int {
 	top := L.GetTop()
 	for i := 1; i <= top; i++ {
-		fmt.Print(L.ToStringMeta(L.Get(i)).String())
+		s := L.ToStringMeta(L.Get(i))
+		if !LVCanConvToString(s) {
+			L.RaiseError("'tostring' must return a string to 'print'")
+		}
+		fmt.Print(s.String())
 		if i != top {
 			fmt.Print("\t")
 		}
